@@ -3210,7 +3210,7 @@ func _case(n *node) {
 					}
 					if v := val.node; v != nil {
 						for _, typ := range types {
-							if v.typ.id() == typ.id() {
+							if v.typ.id() == typ.id() || isInterfaceSrc(typ) && v.typ.methods().contains(typ.methods()) {
 								return tnext
 							}
 						}
@@ -3258,6 +3258,14 @@ func _case(n *node) {
 						return fnext
 					}
 					elem := v.Elem()
+					if isInterfaceSrc(typ) && !isEmptyInterface(typ) {
+						// An interpreted interface type: the dynamic type must have its methods.
+						if elem.IsValid() && implementsInterface(v, typ) {
+							destValue(f).Set(elem)
+							return tnext
+						}
+						return fnext
+					}
 					if rtyp.String() == t.String() && implementsInterface(v, typ) {
 						destValue(f).Set(elem)
 						return tnext
@@ -3277,6 +3285,10 @@ func _case(n *node) {
 					if vi.node != nil {
 						if vi.node.typ.id() == typ.id() {
 							destValue(f).Set(vi.value)
+							return tnext
+						}
+						if isInterfaceSrc(typ) && vi.node.typ.methods().contains(typ.methods()) {
+							destValue(f).Set(v)
 							return tnext
 						}
 					} else if !vi.value.IsValid() && typ.cat == nilT {
@@ -3305,6 +3317,14 @@ func _case(n *node) {
 							continue
 						}
 						elem := val.Elem()
+						if isInterfaceSrc(typ) && !isEmptyInterface(typ) {
+							// An interpreted interface type: the dynamic type must have its methods.
+							if elem.IsValid() && implementsInterface(val, typ) {
+								destValue(f).Set(elem)
+								return tnext
+							}
+							continue
+						}
 						if rtyp.String() == t.String() && implementsInterface(val, typ) {
 							destValue(f).Set(elem)
 							return tnext
@@ -3324,7 +3344,7 @@ func _case(n *node) {
 				if vi, ok := val.Interface().(valueInterface); ok {
 					if v := vi.node; v != nil {
 						for _, typ := range types {
-							if v.typ.id() == typ.id() {
+							if v.typ.id() == typ.id() || isInterfaceSrc(typ) && v.typ.methods().contains(typ.methods()) {
 								destValue(f).Set(val)
 								return tnext
 							}
